@@ -165,7 +165,7 @@ def handleRow (op : String) (j : Json) : Except String Json := do
     let lay ← layoutOfJ j
     let v ← valOfJ sch.top (← j.getObjVal? "v")
     pure (Json.mkObj [("repr", Json.bool (Representable sch.top v)),
-      ("adm", Json.bool (Admissible sch lay))])
+      ("adm", Json.bool (Admissible sch lay)), ("any", Json.bool (AnySpreadOk sch lay v))])
   | "row.match" => do
     let h ← asStrList (← j.getObjVal? "hs")
     let p ← getStr j "prefix"
